@@ -26,7 +26,7 @@ pub const BOUNDS: [BoundaryType; 4] = [BoundaryType::EXTERIOR, BoundaryType::INT
 pub const TILTS: [f32; 3] = [0.0, 90.0, 180.0];
 
 pub fn cfg_grid() -> Grid {
-    Grid::new(&[("bounds", 4), ("tilt", 3), ("space", 3), ("next_to", 4), ("u_override", 2), ("cons", 2), ("multiplier", 2), ("window", 4)])
+    Grid::new(&[("bounds", 4), ("tilt", 3), ("space", 3), ("next_to", 4), ("u_override", 2), ("cons", 2), ("multiplier", 2), ("window", 5)])
 }
 
 pub fn cfg_of(t: &[usize]) -> Cfg {
@@ -39,7 +39,7 @@ pub fn core_cfgs() -> Vec<Cfg> {
     for bounds in 0..4 {
         for tilt in 0..3 {
             for space in 0..2 {
-                for win in 0..2 {
+                for win in [0usize, 1, 4] {
                     for mult in 0..2 {
                         let next = if bounds == 1 { if space == 0 { 2 } else { 1 } } else { 0 };
                         v.push(Cfg { bounds, tilt, space, next, ovr: 0, cons: 0, mult, win });
@@ -87,9 +87,15 @@ pub fn add_element(m: &mut Model, c: &Cfg, name: &str, k: usize) {
         0 => {}
         1 => m.windows.push(window(&format!("{name}_v"), uid("winc"), wid, Some([1.0, 1.0]), 1.5, 1.2, 0.0)),
         2 => m.windows.push(window(&format!("{name}_v"), uid("missing-wincons"), wid, Some([1.0, 1.0]), 1.5, 1.2, 0.0)),
-        _ => {
+        3 => {
             let v = window(&format!("{name}_v"), uid("winc"), wid, Some([1.0, 1.0]), 1.5, 1.2, 0.0);
             m.overrides.windows.insert(v.id, WinPropsOverrides { u_value: Some(1.1), f_shobst: Some(0.5) });
+            m.windows.push(v);
+        }
+        _ => {
+            // user override on a window whose construction does not resolve
+            let v = window(&format!("{name}_v"), uid("missing-wincons"), wid, Some([1.0, 1.0]), 1.5, 1.2, 0.0);
+            m.overrides.windows.insert(v.id, WinPropsOverrides { u_value: Some(1.3), f_shobst: None });
             m.windows.push(v);
         }
     }
@@ -238,7 +244,7 @@ pub fn run08(ctx: &Ctx) -> i32 {
     ctx.sample(json!({"part": "pair", "a": format!("{:?}", core[5]), "b": format!("{:?}", core[77])}));
     ctx.finish(
         "model_checking",
-        "all 4608 single-element configurations (bounds 4 x tilt 3 x space{inside,outside,missing} x next_to{None,inside,outside,missing} x U override{-,set} x construction{ok,missing} x multiplier{1,2.5} x window{none,resolvable,unresolvable construction,overridden}) in a fixed two-space context; all 9216 ordered pairs over a 96-configuration core (+ list reversal and id relabeling on every 5th pair); 9 bridge kinds x l{-1,-0.0,0,2.5} x psi{0,.1,-.05} singly and all together; 7 shipped models; oracle: K, totals, categories, u_min/u_max/u_mean, bridge sums recomputed in f64 from the model by the statement's formula (wall U from Wall::u_value, window U from the C07 formula) with an interval for the 0.01 m2 rounding of net areas; non-trivial = envelope area > 0",
+        "all 5760 single-element configurations (bounds 4 x tilt 3 x space{inside,outside,missing} x next_to{None,inside,outside,missing} x U override{-,set} x construction{ok,missing} x multiplier{1,2.5} x window{none,resolvable,unresolvable construction,overridden,overridden+unresolvable}) in a fixed two-space context; all 9216 ordered pairs over a 96-configuration core (+ list reversal and id relabeling on every 5th pair); 9 bridge kinds x l{-1,-0.0,0,2.5} x psi{0,.1,-.05} singly and all together; 7 shipped models; oracle: K, totals, categories, u_min/u_max/u_mean, bridge sums recomputed in f64 from the model by the statement's formula (wall U from Wall::u_value, window U from the C07 formula) with an interval for the 0.01 m2 rounding of net areas; non-trivial = envelope area > 0",
         true,
         json!({"singles": n, "pairs": np}),
     )
